@@ -62,7 +62,7 @@ static simsched::SchedConfig sc_of(const Rec &r, long nbytes, int T) {
   c.max_spurious = (int)A(r, b + 3);
   c.p_spurious = 0.03;
   c.est_steps = est_steps(nbytes, T);
-  c.step_budget = 50 * c.est_steps + 5000;
+  c.step_budget = 200 * c.est_steps + 20000;
   c.keep_events = false;
   return c;
 }
